@@ -230,6 +230,10 @@ class C08(Check):
             s2, o2, d2, k2, a2 = cells[rng.randrange(len(cells))]
             c2s, s2c = self.sizes(scheme, op)
             plan["cuts"].append({"dir": d2, "at": a2 % ((c2s if d2 == "c2s" else s2c) + 1), "kind": rng.choice(["EOF", "RST"]), "conn": 1})
+            if scheme == "doip" and kind in ("EOF", "RST") and rng.random() < 0.4:
+                # the restarting gateway accepts the TCP connection but is not ready yet: it swallows the routing activation
+                # request of the first reconnect attempt (the transport's own reconnect loop then tries again)
+                plan["cuts"][-1] = {"dir": "c2s", "at": 0, "kind": "BLACKHOLE", "conn": 1}
         return plan
 
     def simplify(self, plan: dict[str, Any]) -> Any:
@@ -468,7 +472,10 @@ class C08(Check):
         # (4) recovery
         reconnects = [c for c in net.connect_log[1:]]
         all_accepted = all(m == "accept" for _, _, m in reconnects)
-        detectable = all(c.kind in ("EOF", "RST") for c in fired) and len(fired) >= 1
+        half_up = [c for c in fired if c.kind == "BLACKHOLE" and scheme == "doip" and getattr(c, "conn", 0) >= 1 and c.dir == "c2s" and c.at == 0]
+        detectable = all(c.kind in ("EOF", "RST") or c in half_up for c in fired) and len(fired) >= 1
+        if half_up:
+            bump(res["probes"], "gateway_silent_on_the_first_reconnect")
         # ... or the peer was back before the client's own back-off before a reconnect (UDSClient.retry_wait, read off the
         # client object) had elapsed: a client that keeps to that back-off finds it listening
         backoff = float(getattr(holder.get("client"), "retry_wait", 0.0) or 0.0)
@@ -484,7 +491,7 @@ class C08(Check):
         if silent_before_ack and op == "request" and plan["max_retry"] >= 1 and (all_accepted or back_in_time):
             bump(res["probes"], "silence_before_the_acknowledgement")
             detectable = True
-        if op == "request" and detectable and plan["max_retry"] >= len(fired) and (all_accepted or back_in_time):
+        if op == "request" and detectable and plan["max_retry"] >= len(fired) - len(half_up) and (all_accepted or back_in_time):
             s = next((s for s in steps if s["name"] == "request"), None)
             if s is not None and (s["out"] != "ok" or s["val"] != REPLY):
                 phase = "before-cut" if cut_time is None else ("request-in-flight" if s["t0"] <= cut_time <= s["t1"] else "cut-before-request")
